@@ -359,6 +359,12 @@ pub fn search(tier: &str, seed: u64, s: &mut Search) {
             // a nested svg is not an instance: it becomes the mapping group itself
             let b = format!(r#"{hdr}<g transform="translate({x} {y}) matrix({sx} 0 0 {sy} {tx} {ty})">{content}</g></svg>"#);
             cmp(s, "nested-svg-viewbox==group", &a, &b, true);
+            // … and its opacity, effects and blending are those of that one group (applied once)
+            let fx_defs = r##"<defs><filter id="nf" filterUnits="userSpaceOnUse" x="-50" y="-50" width="300" height="300"><feOffset dx="2"/></filter><mask id="nm" maskUnits="userSpaceOnUse" x="-50" y="-50" width="300" height="300"><rect x="-50" y="-50" width="300" height="300" fill="white" fill-opacity="0.5"/></mask><clipPath id="nc"><rect x="-50" y="-50" width="100" height="300"/></clipPath></defs>"##;
+            let attrs = *rng.pick(&[r#" opacity="0.5""#, r##" filter="url(#nf)""##, r##" mask="url(#nm)""##, r##" clip-path="url(#nc)""##, r#" style="isolation:isolate""#, r#" style="mix-blend-mode:multiply""#, r##" opacity="0.25" mask="url(#nm)""##]);
+            let a = format!(r#"{hdr}{fx_defs}<svg x="{x}" y="{y}" width="{w}" height="{h}" viewBox="{vbx} {vby} {vbw} {vbh}" preserveAspectRatio="{par}" overflow="visible"{attrs}>{content}</svg></svg>"#);
+            let b = format!(r#"{hdr}{fx_defs}<g{attrs} transform="translate({x} {y}) matrix({sx} 0 0 {sy} {tx} {ty})">{content}</g></svg>"#);
+            cmp(s, "nested-svg-with-effects==group", &a, &b, true);
         }
         // a text reached through `use` takes xml:space (like every inherited property) from where it is USED
         {
